@@ -88,7 +88,11 @@ LEVEL_TEXT = ('Machine-checked theorems for every cookie string, clock value (wh
               'and the ticket round trip for every scalar user-id text (C09_unquote_quote_scalar, C09_ticket_roundtrip_scalar); '
               'no valid token contains , or ! and the token field splits back (C09_valid_token_no_separator, '
               'C09_tokens_split_back, over the regenerated VALID_TOKEN classes); forget / remember from application response '
-              'callbacks: its headers are the last on the response (C09_explicit_callback_is_final).  See harness/c09/NOTES.md.')
+              'callbacks: its headers are the last on the response (C09_explicit_callback_is_final).  End to end: '
+              'C09_policy_end_to_end (constructed policy -> remember -> cookie -> unauthenticated_userid = the remembered typed user '
+              'id inside the timeout, None after, never a raise) and C09_accepted_is_issued_or_collision (an accepted cookie with the '
+              'digest field of an issued ticket yields exactly the issued identity, or exhibits a collision of the keyed digest).  '
+              'See harness/c09/NOTES.md.')
 LEVEL_NOTE = ('Trusted: Coq kernel; the translator\'s primitive table and control-flow rules (anything outside subset / table is '
               'a broken tie, never a guess); Python harness; hashlib/WebOb/Unicode-database behaviour taken as oracles; pins for '
               'the few untranslated functions.  Premises visible in theorem statements: length (H a x) = digest length, H output '
